@@ -267,7 +267,22 @@ func opStrSetWith(k, v string, o setOpts) step {
 	}
 	return step{text: text, family: "str", ttl: ttl, run: func(e *env, _ func(int64) int64) string {
 		c := e.r.Str().SetWith(k, []byte(v))
-		// at most one of ttl / at / keepTTL and one of ifExists / ifNotExists is set by the generator
+		// at most one of ttl / at / keepTTL and one of ifExists / ifNotExists is set by the generator.
+		// The builder methods commute; which group is applied first is derived from the value bytes so that
+		// both orders are exercised and a replay repeats the same order.
+		sum := 0
+		for i := 0; i < len(v); i++ {
+			sum += int(v[i])
+		}
+		condFirst := sum%2 == 1
+		if condFirst {
+			if o.ifExists {
+				c = c.IfExists()
+			}
+			if o.ifNotExists {
+				c = c.IfNotExists()
+			}
+		}
 		if o.ttl != 0 {
 			c = c.TTL(ms(o.ttl))
 		}
@@ -277,11 +292,13 @@ func opStrSetWith(k, v string, o setOpts) step {
 		if o.keepTTL {
 			c = c.KeepTTL()
 		}
-		if o.ifExists {
-			c = c.IfExists()
-		}
-		if o.ifNotExists {
-			c = c.IfNotExists()
+		if !condFirst {
+			if o.ifExists {
+				c = c.IfExists()
+			}
+			if o.ifNotExists {
+				c = c.IfNotExists()
+			}
 		}
 		out, err := c.Run()
 		if err != nil {
